@@ -1162,5 +1162,9 @@ func runC06(c *Ctx) error {
 		return err
 	}
 	// the less travelled ways in (c06doors.go)
-	return c06Doors(c)
+	if err := c06Doors(c); err != nil {
+		return err
+	}
+	// ot/label.go function by function and the CO wire format (c06ext.go)
+	return c06Ext(c)
 }
